@@ -14,7 +14,12 @@ pub struct Folded<S: State> {
 impl<S: State> Folded<S> {
     pub(super) fn from_spectrum(spectrum: &Spectrum<S>) -> Self {
         let n = spectrum.elements();
-        let total_count = spectrum.shape().iter().sum::<usize>() - spectrum.shape().len();
+        // The largest allele count along each axis is one less than its length; saturate so that
+        // empty or absurd shapes (which have no elements to fold below) cannot overflow
+        let total_count = spectrum
+            .shape()
+            .iter()
+            .fold(0usize, |sum, n| sum.saturating_add(n.saturating_sub(1)));
 
         // In general, this point divides the folding line. Since we are folding onto the "upper"
         // part of the array, we want to fold anything "below" it onto something "above" it.
